@@ -63,6 +63,47 @@ LangFix(g, D, L) ==
   IN IF D2 = D THEN D ELSE LangFix(g, D2, L)
 LangUpTo(g, L) == LangFix(g, [A \in Nonterms(g) |-> {}], L)     \* function nonterminal -> set of terminal strings
 
+(* ---- denotation with parse events (C02): for every nonterminal the set of                  *)
+(*   [w, ev, s, e]:  w a terminal string (|w| <= L), ev the post-order list of <<rule, s, e>>   *)
+(*   for the rules of its derivation, and <<s, e>> the span of the phrase.  Coordinates: token   *)
+(*   i of the phrase covers [2i, 2i+1]; an empty phrase sits at the following token [2k, 2k]     *)
+(*   (the documented range rule: first to last element, empty parts at the following token).     *)
+ShiftEv(ev, d) == [k \in 1..Len(ev) |-> <<ev[k][1], ev[k][2] + d, ev[k][3] + d>>]
+(* append phrase q after phrase p (p already covers Len(p.w) tokens); sp: spans of the elements so far *)
+CatPhrase(p, q) ==
+  LET d == 2 * Len(p.w) IN
+  [w |-> p.w \o q.w, ev |-> p.ev \o ShiftEv(q.ev, d), sp |-> Append(p.sp, <<q.s + d, q.e + d>>)]
+RECURSIVE SeqDen(_, _, _, _, _, _)
+SeqDen(g, D, rhs, i, L, acc) ==       \* acc: set of [w, ev, sp] for rhs[1..i-1]
+  IF i > Len(rhs) THEN acc
+  ELSE LET X == rhs[i]
+           opts == IF X < g.nT THEN { [w |-> <<X>>, ev |-> <<>>, s |-> 0, e |-> 1] } ELSE D[X]
+           nxt == { CatPhrase(pq[1], pq[2]) : pq \in { pq \in acc \X opts : Len(pq[1].w) + Len(pq[2].w) <= L } }
+       IN SeqDen(g, D, rhs, i + 1, L, nxt)
+(* the nested '-> Node' parts of a rule, [from, to] over right-hand-side positions, are reported when the rule is
+   reduced, in the post-order of their own nesting (by closing position, inner first), right before the rule's node *)
+ArrowOrder(arrows) ==
+  LET idx == 1..Len(arrows)
+      Before(a, b) == arrows[a][2] < arrows[b][2] \/ (arrows[a][2] = arrows[b][2] /\ arrows[a][1] > arrows[b][1])
+      RECURSIVE Sort(_)
+      Sort(S) == IF S = {} THEN <<>> ELSE LET m == CHOOSE m \in S : \A x \in S \ {m} : Before(m, x) IN <<m>> \o Sort(S \ {m})
+  IN Sort(idx)
+RuleTypeOf(g, r) == IF "rtype" \in DOMAIN g.rules[r] /\ g.rules[r].rtype > 0 THEN g.rules[r].rtype ELSE r
+RuleDen(g, D, r, L) ==
+  LET rhs == CleanRhs(g.rules[r].rhs)
+      ps == SeqDen(g, D, rhs, 1, L, { [w |-> <<>>, ev |-> <<>>, sp |-> <<>>] })
+      arrows == IF "arrows" \in DOMAIN g.rules[r] THEN g.rules[r].arrows ELSE <<>>
+      order == ArrowOrder(arrows)
+      Span(p) == IF Len(p.sp) = 0 THEN <<0, 0>> ELSE <<p.sp[1][1], p.sp[Len(p.sp)][2]>>
+      ArrowEv(p) == [k \in 1..Len(order) |-> <<g.rules[r].atype[order[k]], p.sp[arrows[order[k]][1]][1], p.sp[arrows[order[k]][2]][2]>>]
+  IN { [w |-> p.w, s |-> Span(p)[1], e |-> Span(p)[2],
+        ev |-> p.ev \o ArrowEv(p) \o << <<RuleTypeOf(g, r), Span(p)[1], Span(p)[2]>> >>] : p \in ps }
+RECURSIVE DenFix(_, _, _)
+DenFix(g, D, L) ==
+  LET D2 == [A \in Nonterms(g) |-> D[A] \cup UNION { RuleDen(g, D, r, L) : r \in RulesOf(g, A) }]
+  IN IF D2 = D THEN D ELSE DenFix(g, D2, L)
+Den(g, L) == DenFix(g, [A \in Nonterms(g) |-> {}], L)
+
 (* ---- incremental Earley recognition for start nonterminal S; items <<r, dot, origin>>, r = 0 is S' -> S *)
 ERhs(g, S, r) == IF r = 0 THEN <<S>> ELSE CleanRhs(g.rules[r].rhs)
 ELhs(g, r) == IF r = 0 THEN -1 ELSE g.rules[r].lhs
